@@ -199,6 +199,34 @@ class Ctx:
         return 0
 
 
+def import_rules(ctx, fns, tag):
+    """run rule functions that belong to another property inside this check, as necessary conditions of this property;
+    their rule ids are prefixed with `tag` (e.g. X02.R3) so that ids and violation keys stay unique"""
+    for fn in fns:
+        keep = ctx.rules
+        sub = {}
+        ctx.rules = sub
+        n0 = len(ctx.records)
+        try:
+            try:
+                fn(ctx)
+            except AnchorMissing:
+                pass
+        finally:
+            ctx.rules = keep
+        for rid, rule in sub.items():
+            nid = "%s.%s" % (tag, rid)
+            rule.rid = nid
+            rule.template = "(shared with %s) %s" % (tag.replace("X", "C"), rule.template)
+            for rec in rule.records:
+                rec["rule"] = nid
+                rec["key"] = rec["key"].replace("%s/%s/" % (ctx.pid, rid), "%s/%s/" % (ctx.pid, nid), 1)
+            if nid in ctx.rules:
+                ctx.rules[nid].records.extend(rule.records)
+            else:
+                ctx.rules[nid] = rule
+
+
 def run_check(pid, tier, module):
     import traceback
     ctx = Ctx(pid, tier)
@@ -215,7 +243,49 @@ def run_check(pid, tier, module):
             internal += 1
             traceback.print_exc()
             print("INTERNAL-ERROR in %s.%s" % (pid, fn.__name__))
+    if tier == "thorough":
+        try:
+            _thorough(ctx, module)
+        except Exception:
+            internal += 1
+            traceback.print_exc()
+            print("INTERNAL-ERROR in thorough tier of %s" % pid)
     rc = ctx.finish()
     if rc == 0 and internal:
         return 3
     return rc
+
+
+def _thorough(ctx, module):
+    from . import thorough
+    pid = ctx.pid
+    res = thorough.run_variants(pid, jobs=int(os.environ.get("VERIF_JOBS", "8")))
+    caught = [x for x in res if x["status"] in ("caught", "caught-other-key")]
+    quiet = [x for x in res if x["status"] == "quiet-ok"]
+    bad = [x for x in res if x["status"] in ("MISSED", "FALSE-ALARM", "nocompile")]
+    skipped = [x for x in res if x["status"] == "skipped"]
+    ctx.extra["selftest"] = {"variants": len(res), "breaking_caught": len(caught), "behaviour_preserving_quiet": len(quiet), "skipped_anchor_gone": len(skipped),
+                             "problems": bad, "results": res}
+    print("  thorough/E6: %d seeded variants: %d breaking caught, %d behaviour-preserving quiet, %d skipped, %d problems" % (len(res), len(caught), len(quiet), len(skipped), len(bad)))
+    for x in bad:
+        print("  SELFTEST-PROBLEM %s %s %s" % (x["id"], x["status"], x.get("keys", "")))
+    w = thorough.run_witnesses(pid)
+    if w is not None:
+        ctx.extra["witnesses"] = w
+        r = ctx.rule("W", "type-level witnesses (compile_fail doctests with compiling twins, cargo +nightly test --doc): the API cannot forge/mutate what the MIR rules confine")
+        if w["rc"] != 0 and not w["results"]:
+            r.undecided("build", "witness crate did not build: %s" % w["tail"][-300:])
+        for nm in w["relevant"]:
+            got = w["results"].get(nm, {})
+            if "compile_fail" not in got:
+                r.undecided(nm, "witness %s did not run" % nm)
+                continue
+            if got.get("twin") is False:
+                r.undecided(nm + "/twin", "the compiling twin of %s no longer compiles (API changed): witness inconclusive" % nm)
+            elif got["compile_fail"]:
+                r.ok(nm, "offending program is rejected by the compiler; twin compiles")
+            else:
+                r.violation(nm, "the offending program of witness %s now compiles: the API lets an outside user do what the rule forbids" % nm)
+        print("  thorough/E4: witnesses %s (%.0fs)" % ({k: v for k, v in w["results"].items() if k in w["relevant"]}, w["wall_s"]))
+    if hasattr(module, "thorough_extra"):
+        module.thorough_extra(ctx)
